@@ -28,6 +28,8 @@ def _body(cs, a, b, k, x):
 
     # key k is a call pattern: patterns 0 and 1 share their only positional argument
     PATS = [((1,), {}), ((1,), {"scale": 10}), ((2,), {})]
+    if P("pats") == "collide":  # distinct patterns whose tuples have equal hashes
+        PATS = [((-1, 0), {}), ((-2, 0), {}), ((2,), {})]
 
     failmode = [False]
 
@@ -206,6 +208,7 @@ def jobs(tier):
         add(T=2, CALLS=2, KEYS=2, FSUSP=1, ms=ms, KEYSPACE=2)
         add(T=2, CALLS=(1 if q else 2), KEYS=2, FSUSP=2, ms=ms, KEYSPACE=2)
         add(T=3, CALLS=1, KEYS=2, FSUSP=1, ms=ms, KEYSPACE=2)
+        add(T=2, CALLS=2, KEYS=2, FSUSP=1, ms=ms, KEYSPACE=2, pats="collide")
         add(T=2, CALLS=2, KEYS=2, FSUSP=1, ms=ms, KEYSPACE=2, extra="clear", X=1)
         add(T=2, CALLS=2, KEYS=2, FSUSP=1, ms=ms, KEYSPACE=2, extra="discard", X=1)
         add(T=2, CALLS=2, KEYS=2, FSUSP=1, ms=ms, KEYSPACE=2, K=2)
